@@ -84,3 +84,33 @@ func sweep(t *testing.T, base RunSpec, maxRuns int, tags map[string]bool) []RunS
 }
 
 func quick(tier string) bool { return tier != "thorough" }
+
+// sweep2 samples runs with two deviations from the default schedule (the second
+// index refers to the vector of the run that already contains the first).
+func sweep2(t *testing.T, base RunSpec, n int, seed uint64) []RunSpec {
+	def := base.clone()
+	def.Choices = &simrt.Sparse{}
+	v := Execute(t, def)
+	var out []RunSpec
+	if v.Class == "infra" || len(v.Choices) < 2 {
+		return out
+	}
+	r := simrt.NewRng(seed)
+	for k := 0; k < n; k++ {
+		i := r.Intn(len(v.Choices))
+		j := i + 1 + r.Intn(len(v.Choices)-i)
+		vi := 1 + r.Intn(maxInt(1, v.Ns[i]-1))
+		vj := 1 + r.Intn(3)
+		c := base.clone()
+		c.Choices = &simrt.Sparse{Len: j + 1, NZ: [][2]int{{i, vi}, {j, vj}}}
+		out = append(out, c)
+	}
+	return out
+}
+
+func maxInt(a, b int) int {
+	if a > b {
+		return a
+	}
+	return b
+}
